@@ -81,3 +81,4 @@ func runUnsignedWiden(rc *RuleCtx) {
 		}
 	}
 }
+
